@@ -81,7 +81,8 @@ def make_record(i, d, cls, S, I, base="", loc=False, with_restr=False, alt=None,
         v = cls(schema, resolver=resolver_for(schema)) if resolver_for else cls(schema)
         return list(v.iter_errors(I))
     errs = run(S)
-    rec = {"id": i, "d": d, "S": enc(S), "I": enc(I), "base": enc_str(base), "uselib": uselib,
+    rec = {"id": i, "d": d, "S": enc(S), "I": enc(I), "base": enc_str(base), "uselib": uselib, "more": [], "raised": "none",
+           "hasinl": False, "inl": {"S": {"t": "null"}, "errs": []},
            "pats": regex.pats_table([S] + ([alt] if alt is not None else [])),
            "errs": [obs_err(e, loc) for e in errs], "loc": loc, "hasrestr": False, "restr": [], "hasalt": False,
            "alt": {"S": {"t": "null"}, "errs": []}}
